@@ -118,6 +118,16 @@ impl<'a> RoundTrip<'a> {
 			Ok(Err(e)) => { viol.push(V { kind: "open-error".into(), input: desc.clone(), detail: format!("{e:#}") }); return; }
 			Ok(Ok(r)) => r,
 		};
+		self.verify(&desc, container, reader.as_ref(), &stored, &expect_pyramid, format, comp, Some(tj), rng, viol, stats);
+		if container == "dir" { let _ = std::fs::remove_dir_all(&path); } else { let _ = std::fs::remove_file(&path); }
+	}
+}
+
+impl<'a> RoundTrip<'a> {
+	/// everything observable through TilesReaderTrait against the expected mapping
+	#[allow(clippy::too_many_arguments)]
+	pub fn verify(&self, desc: &str, container: &str, reader: &dyn TilesReaderTrait, stored: &TileMap, expect_pyramid: &TileBBoxPyramid, format: TileFormat, comp: TileCompression, tj: Option<&TileJSON>, rng: &mut Rng, viol: &mut Vec<V>, stats: &mut BTreeMap<String, u64>) {
+		let desc = desc.to_string();
 		let p = reader.get_parameters();
 		if p.tile_format != format || p.tile_compression != comp {
 			viol.push(V { kind: "parameters".into(), input: desc.clone(), detail: format!("declared {:?}/{:?}, got {:?}/{:?}", format, comp, p.tile_format, p.tile_compression) });
@@ -179,13 +189,12 @@ impl<'a> RoundTrip<'a> {
 			*stats.entry("streams".into()).or_insert(0) += 1;
 		}
 		// metadata (C17): what was given comes back (bounds/zoom only narrowed)
-		if container != "mbtiles" {
+		if let (true, Some(tj)) = (container != "mbtiles", tj) {
 			let back = reader.get_tilejson();
 			for key in ["name", "description", "attribution"] {
 				if back.get_str(key) != tj.get_str(key) { viol.push(V { kind: "metadata".into(), input: desc.clone(), detail: format!("{key}: wrote {:?}, read {:?}", tj.get_str(key), back.get_str(key)) }); break; }
 			}
 		}
-		if container == "dir" { let _ = std::fs::remove_dir_all(&path); } else { let _ = std::fs::remove_file(&path); }
 	}
 }
 
